@@ -145,7 +145,7 @@ def all_splits(n, maxpieces):
 class Check(DiffCheck):
     id = 'C13'
     coq_dirs = ['Base', 'C13']
-    coq_targets = ['C13/C13_Statements.vo', 'C13/C13_ChunkSafe.vo', 'C13/C13_ChunkDecode.vo', 'C13/C13_Roundtrip.vo', 'C13/C13_ChunkTotal.vo', 'C13/C13_ParseSafe.vo', 'C13/C13_ParseIndep.vo', 'C13/C13_ParseTail.vo']
+    coq_targets = ['C13/C13_Statements.vo', 'C13/C13_ChunkSafe.vo', 'C13/C13_ChunkDecode.vo', 'C13/C13_Roundtrip.vo', 'C13/C13_ChunkTotal.vo', 'C13/C13_ParseSafe.vo', 'C13/C13_ParseIndep.vo', 'C13/C13_ParseTail.vo', 'C13/C13_Examples.vo']
     properties_v = 'C13/C13_Properties.v'
     extract_v = 'C13/C13_Extract.v'
     runner_ml = 'ocaml/C13_run.ml'
@@ -164,6 +164,8 @@ class Check(DiffCheck):
                    'sscanf (Content-Range) modelled by a hand-written scanner for the two formats used',
                    'model follows /repo after fixes F26 (fa57e16), F27 (header line without colon), F28 (tolower_fast8)']
     trusted_base = ['scripted MockSock in harness/C13/harness.cpp', 'python reference parser/decoder in checks/C13.py']
+    partial_note = ('parse_fragmentation_independent is proved for heads accepted by the executable check head_ok (measured on every valid generated head, see '
+                    'coverage.head_ok_hypothesis); wf_head (grammar) -> head_ok is not proved. sscanf/skip_read not verified; std::sort = insertion sort (<= 16 headers).')
 
     # ------------------------------------------------------------------ build
     def build_impl(self):
@@ -199,7 +201,8 @@ class Check(DiffCheck):
         cs += self.gen_WX(rng, big)
         cs += self.gen_R(rng, big)
         cs += self.gen_M(rng, big)
-        return list(dict.fromkeys(cs))
+        self._cases = list(dict.fromkeys(cs))
+        return self._cases
 
     def rbytes(self, rng, n, alphabet=None):
         if alphabet: return bytes(rng.choice(alphabet) for _ in range(n))
@@ -649,6 +652,28 @@ class Check(DiffCheck):
             elif not r['payload'].startswith(got): return 'body bytes are not a prefix of the payload'
             return None
         return None
+
+    def extra(self, ctx):
+        """Evidence for the hypothesis of theorem parse_fragmentation_independent: evaluate the extracted `head_ok` on the head of
+        every strictly valid generated message that fits its buffer.  Informational (recorded in the evidence), never a violation."""
+        try:
+            exe, log = build_model_runner('C13hok', 'C13/C13_Hok_Extract.v', 'ocaml/C13_hok_run.ml', 'C13_hok')
+            if not exe: raise RuntimeError(log[-500:])
+            ks = {}
+            for c in getattr(self, '_cases', []):
+                f = c.split(' ')
+                if f[0] != 'M': continue
+                msg = unhx(f[6]); r = ref_parse(f[1], int(f[4]), msg); cap = int(f[2])
+                if r is None or not (cap - r['body_off'] > 5120 + 4096 + 4096 + 8 * len(r['headers'])): continue
+                ks['K %s %d %d %s' % (f[1], cap, int(f[4]), hx(msg[:r['body_off']]))] = 1
+            ks = list(ks)
+            out = run_cases(exe, ks, ctx['tmp'], 'hok') if ks else []
+            ok = sum(1 for o in out if o == 'K hok=1')
+            self.extra_coverage = dict(head_ok_hypothesis=dict(valid_heads_checked=len(ks), head_ok_true=ok,
+                                                               first_false=next((k[:400] for k, o in zip(ks, out) if o != 'K hok=1'), None)))
+        except Exception as e:
+            self.extra_coverage = dict(head_ok_hypothesis=dict(error=str(e)[:300]))
+        return []
 
     def neighbours(self, case, rng):
         f = case.split(' ')
